@@ -168,3 +168,26 @@ Proof.
   destruct (payload_name x) as [|c r]; [discriminate|].
   unfold valid_name. rewrite Hm, H2, H3. reflexivity.
 Qed.
+
+(* ---- info paths built by trash-put: <dir>/info/<slash-free name ending in .trashinfo> ---- *)
+Lemma basename_noslash s : mem c_slash (basename s) = false.
+Proof.
+  unfold basename. induction s as [|c s IH]; simpl; [reflexivity|]. destruct (mem c_slash s) eqn:Hm; [exact IH|].
+  destruct (N.eqb_spec c c_slash); [exact Hm|]. simpl. rewrite Hm.
+  destruct (N.eqb_spec c_slash c); [congruence|reflexivity].
+Qed.
+Lemma ends_with_app pre b t : ends_with b t = true -> ends_with (pre ++ b) t = true.
+Proof.
+  unfold ends_with. rewrite rev_app_distr. generalize (rev b) (rev t) (rev pre). clear.
+  intros b t. revert b. induction t as [|c t IH]; intros b pre H; [destruct (b ++ pre); reflexivity|].
+  destruct b as [|d b]; [discriminate|]. simpl in *. apply andb_true_iff in H. destruct H as [H1 H2].
+  rewrite H1. simpl. apply IH. exact H2.
+Qed.
+Lemma is_info_path_join D b : mem c_slash b = false -> ends_with b s_trashinfo = true ->
+  is_info_path (join2 (join2 D s_info) b) = true.
+Proof.
+  intros Hb He. unfold is_info_path.
+  rewrite dirname_join2; [|apply join2_is_clean; [discriminate|reflexivity]|exact Hb].
+  rewrite basename_join2 by reflexivity. simpl.
+  destruct (join2_shape (join2 D s_info) b Hb) as [pre [Hj _]]. rewrite Hj. apply ends_with_app. exact He.
+Qed.
